@@ -16,6 +16,17 @@ Definition quad_ok (x : db) (q : quad) : Prop :=
 Definition db_ok (x : db) : Prop :=
   dict_ok (d_dict x) /\ Forall (quad_ok x) (d_quads x).
 
+(* the invariant of the quoted-triple store: both maps agree, identifiers lie in [2^31, next), and every
+   stored quoted triple decodes *)
+Definition qts_ok (x : db) : Prop :=
+  (forall k i, assoc_c k (c2i (d_qts x)) = Some i -> assoc_n i (i2c (d_qts x)) = Some k) /\
+  (forall i k, assoc_n i (i2c (d_qts x)) = Some k -> QBIT <= i /\ i < next_qt (d_qts x)) /\
+  QBIT <= next_qt (d_qts x) /\
+  (forall i k, assoc_n i (i2c (d_qts x)) = Some k -> exists s, decode_any x i = Some s).
+
+(* the hypothesis on a prior database when the document may mention quoted triples *)
+Definition db_okq (x : db) : Prop := db_ok x /\ qts_ok x.
+
 (* the lexical quad as the observable reports it *)
 Definition lq_of (s p o : str) (g : option str) : lquad := (Some s, Some p, Some o, option_map Some g).
 
